@@ -11,3 +11,5 @@ CONSTANTS
  MaxOps = 0
  Styles = {}
  EmptyData = "d0"
+ CopyOn = FALSE
+ CopyMiss = {}
